@@ -289,11 +289,19 @@ func genClaimsCase(seed int64, si int, prop string) *clCase {
 	victim := chain.KeyNode0 + rr.Intn(clNodes)
 	jailFrom := first + int64(rr.Intn(int(c.B)*nSessions))
 	jailed := chain.KeyNode0 + rr.Intn(clNodes)
+	if si%3 == 1 {
+		// calm histories: the duplicate-id edit (below) is the only change of session membership, so that a session cached
+		// before it can live until the claims for it are validated
+		unstakeH, jailFrom = -1, 1<<60
+	}
 	// the application set changes too: application 1 starts with an allowance of 5 relays per node and raises its stake in
 	// the middle of the second session; a plain account stakes as an application in the middle of the third session. Claims
 	// are judged against the state at the START of their session.
 	raiseH := first + c.B + c.B/2
 	lateH := first + 2*c.B + c.B/2
+	if si%3 == 1 {
+		raiseH, lateH = -1, -1 // calm histories (see above): application stake changes clear the session cache as well
+	}
 	for b.H <= maxH+2 {
 		blk := b.Begin(60)
 		static := 0
